@@ -46,7 +46,7 @@ func TestC03_Mgrx(t *testing.T) {
 		r := newMgrRig(t, gen.Peer(0), dbl.NewRecDatastore(), "T/a")
 		defer r.stop()
 		var log []string
-		scenario := rapid.SampledFrom([]string{"local-only-pull", "pull-not-initiated", "initiator-signals", "responder-completes"}).Draw(t, "scenario")
+		scenario := rapid.SampledFrom([]string{"local-only-pull", "pull-not-initiated", "initiator-signals", "responder-completes", "transport-error"}).Draw(t, "scenario")
 		log = append(log, "scenario "+scenario)
 		switch scenario {
 		case "local-only-pull", "pull-not-initiated":
@@ -87,6 +87,32 @@ func TestC03_Mgrx(t *testing.T) {
 			if sp1.WantSample() {
 				sp1.Sample(stats.FP("local-only", scenario, nb), map[string]any{"engine": "mgrx", "case": append(log, fmt.Sprintf("final status %s", datatransfer.Statuses[st.Status()]))})
 			}
+		case "transport-error":
+			// a transport that finished with an error never yields a Complete message nor Completed
+			role := rapid.SampledFrom(roles).Draw(t, "role")
+			c := openRole(t, r, &log, role, 951, rapid.Bool().Draw(t, "viaTransport"))
+			for i := 1; i <= rapid.IntRange(0, 3).Draw(t, "blocks"); i++ {
+				_, _ = r.report(c, int64(i), 50, true)
+			}
+			if c.selfInit() && rapid.Bool().Draw(t, "responderSaidComplete") {
+				m, _ := message.CompleteResponse(c.chid.ID, true, false, nil)
+				deliver(r, c.other, m, false)
+			}
+			sent0 := r.net.SentLen()
+			_ = r.ev().OnChannelCompleted(c.chid, errors.New("graphsync response did not complete"))
+			st, _ := r.settle(c.chid)
+			r.syncAll()
+			for _, s := range r.net.SentSince(sent0) {
+				if resp, ok := s.Msg.(datatransfer.Response); ok && !s.Msg.IsRequest() && resp.IsComplete() {
+					mfail(t, log, "C01/complete-after-transport-error", "a Complete message was sent although the transport finished with an error")
+				}
+			}
+			if st.Status() != datatransfer.Failed {
+				mfail(t, log, "C01/completed-after-transport-error", "transport finished with an error but the %s channel is %s", role, datatransfer.Statuses[st.Status()])
+			}
+			sp1.Eval()
+			sp1.Nontrivial(stats.FP("transport-error", role))
+			sp1.Class("transport_error_fails_channel")
 		case "initiator-signals":
 			role := rapid.SampledFrom([]string{"createPush", "createPull"}).Draw(t, "role")
 			c := openRole(t, r, &log, role, 0, false)
